@@ -172,8 +172,19 @@ class Check:
 def _run_one(check: Check, case: dict):
     try:
         res = check.execute(case)
-    except Exception:
-        res = result(ERROR, detail=traceback.format_exc(limit=12), nontrivial=False)
+    except Exception as exc:
+        # an exception the harness did not anticipate.  If it was raised by a statement of the library
+        # itself (innermost frame inside the yaw package) while the harness used it on an input of the
+        # property's domain, the library refused or broke on a valid input: a violation, with the raising
+        # function as mechanism.  Anything else (harness code, numpy, the OS) is a harness error.
+        tb = traceback.extract_tb(exc.__traceback__)
+        inner = tb[-1] if tb else None
+        if inner is not None and "/yaw/" in inner.filename.replace("\\", "/") and "/verif/" not in inner.filename:
+            res = result(VIOLATED, mechanism=f"library-raises:{type(exc).__name__}:{inner.name}",
+                         detail=dict(case=case, error=f"{type(exc).__name__}: {exc}"[:300], traceback=traceback.format_exc(limit=8)[-1500:]),
+                         nontrivial=False)
+        else:
+            res = result(ERROR, detail=traceback.format_exc(limit=12), nontrivial=False)
     if isinstance(res, dict):
         res = [res]
     out = []
